@@ -10,6 +10,7 @@ import (
 	"strings"
 
 	"verif/mc/engine"
+	"verif/mc/fixture"
 	"verif/mc/model"
 	"verif/mc/pkgread"
 
@@ -262,6 +263,39 @@ func init() {
 								return
 							}
 						}
+					}
+				}
+			}
+			// large shapes: a directory of 1500 files, 2000 files in 20 directories, a chain of 40 directories (as source
+			// and as destination), same-named files of sibling directories sent to one directory
+			deepDst := "/srv"
+			for l := 0; l < 45; l++ {
+				deepDst += fmt.Sprintf("/n%d", l)
+			}
+			for _, p := range pk {
+				for _, l := range [][]model.Entry{
+					{{Src: "wide", Dst: "/opt/wide", Type: "tree"}},
+					{{Src: "wide/", Dst: "/opt/wide"}},
+					{{Src: "wide/w1*", Dst: "/opt/wide"}},
+					{{Src: "many", Dst: "/opt/many", Type: "tree"}},
+					{{Src: "many/*/f09?", Dst: "/opt/many"}},
+					{{Src: "deep", Dst: "/opt/deep", Type: "tree"}},
+					{{Src: "deep/", Dst: "/opt/deep"}},
+					{{Src: fixture.DeepPath(fixture.DeepLevels) + "/bottom", Dst: deepDst + "/bottom"}},
+					{{Dst: deepDst, Type: "dir"}},
+					{{Src: "/t", Dst: deepDst + "/link", Type: "symlink"}},
+					{{Src: "deep", Dst: deepDst, Type: "tree"}},
+					{{Src: "samename/*/libfoo.so", Dst: "/usr/lib/"}},
+					{{Src: "samename/*/libfoo.so", Dst: "/usr/lib"}},
+					{{Src: "samename/*/*", Dst: "/usr/lib/"}},
+					{{Src: "samename/", Dst: "/usr/lib/"}},
+					{{Src: "samename", Dst: "/usr/lib/", Type: "tree"}},
+					{{Src: "samename/amd64/libfoo.so", Dst: "/usr/lib/"}, {Src: "samename/arm64/libfoo.so", Dst: "/usr/lib/"}},
+					{{Src: "samename/amd64/", Dst: "/usr/lib/"}, {Src: "samename/arm64/", Dst: "/usr/lib/"}},
+					{{Src: "samename/amd64", Dst: "/usr/lib/", Type: "tree"}, {Src: "samename/arm64", Dst: "/usr/lib", Type: "tree"}},
+				} {
+					if !yield(C05Case{Part: "large", Packager: p, List: l}) {
+						return
 					}
 				}
 			}
